@@ -120,6 +120,7 @@ def grid(ctx, rng):
             wpl = rng.choice([7, 1000, 50000])
             L = rng.choice([1, 2, 40, 3000])
             count = rng.choice([200000, 600000])
+            L = max(L, count // (wpl * 4000))         # (at most a few thousand invocations per point: each is traced)
             t.append(point("%d x %s, %d words per line, -L %d, stack %d" % (count, dist, wpl, L, stack), count, dist, 1, stack, opts=["-L", str(L)],
                            mode="words", words_per_line=wpl, env_tiny=rng.choice([0, 2000])))
     for stack in (512 * KIB, 8 * MIB, -1):
